@@ -28,7 +28,7 @@ def execute(case):
     el.topologies = [r[2] for r in case["rows"]]
     el.motif_id = [r[3] for r in case["rows"]]
     tr = {"case": case, "jds": [list(j) for j in case["jds"]],
-          "rows": [{"a": r[0], "b": r[1], "top": r[2], "mid": r[3]} for r in case["rows"]],
+          "rows": [{"a": r[0], "b": r[1], "top": str(r[2]), "mid": r[3]} for r in case["rows"]],
           "raised_fwd": "", "raised_back": "", "raised_again": "", "G": EMPTY_G, "G2": EMPTY_G,
           "el2": {"jds": [], "rows": [], "parallel": True}}
     try:
@@ -78,7 +78,8 @@ def run(chk):
     for i in range(20000 if thorough else 3000):
         n = rng.choice([1, 2, 3, 4, 6, 10, 30])
         k = rng.randrange(0, 3 * n + 2)
-        rows = [[rng.randrange(n), rng.randrange(n), rng.choice(["a", "b", "2-clique", "3-clique"]), rng.randrange(0, k + 1)]
+        # topology names are arbitrary labels (strings incl. the empty one, ints incl. 0); motif ids include 0
+        rows = [[rng.randrange(n), rng.randrange(n), rng.choice(["a", "b", "2-clique", "3-clique", "", 0, 1]), rng.randrange(0, k + 1)]
                 for _ in range(k)]
         cases.append({"kind": "random", "jds": [(rng.randrange(4), rng.randrange(3)) for _ in range(n)], "rows": rows})
     # edge lists the generators really produce (30-60 % zero-degree mass)
